@@ -42,8 +42,7 @@
 //   block loops journal print:float:<hhhh>0000-<hhhh>ffff (and print:double:<see>[0000-ffff]<fill>,
 //   print:double-of-float:...) but report every failing value under its own print:<type>:<bits> key.
 //
-// String values are always stored as OWNED strings (as<double>() on a linked string is
-// deviation D1 and belongs to C13/C14).
+// String values are stored both as owned (std::string) and as linked (const char*) strings.
 #pragma once
 #include <ArduinoJson.h>
 
@@ -318,8 +317,8 @@ inline Judged judgeFloat(const Lit& L, float r) {
 // ------------------------------------------------------------------------------------------
 // observation
 
-enum Via { DOC = 0, TOP = 1, STR = 2 };
-static const char* kViaName[] = {"doc", "top", "str"};
+enum Via { DOC = 0, TOP = 1, STR = 2, LNK = 3 };
+static const char* kViaName[] = {"doc", "top", "str", "lnk"};
 enum Ty { T_DOUBLE = 0, T_FLOAT = 1, T_INT64 = 2, T_UINT64 = 3, T_TEXT = 4 };
 static const char* kTyName[] = {"double", "float", "int64", "uint64", "text"};
 
@@ -337,10 +336,11 @@ inline Observed observe(const std::string& lit, Via via, Ty ty) {
   Observed O;
   JsonDocument doc;
   JsonVariantConst v;
-  if (via == STR) {
-    doc.set(lit);  // std::string: copied, stored as an owned string
+  if (via == STR || via == LNK) {
+    if (via == STR) doc.set(lit);  // std::string: copied, stored as an owned string
+    else doc.set(static_cast<const char*>(lit.c_str()));  // const char*: kept by address (no length limit)
     v = doc.as<JsonVariantConst>();
-    if (!v.is<const char*>()) {
+    if (!v.is<const char*>() || v.as<JsonString>().isLinked() != (via == LNK)) {
       O.why = "string-not-stored";
       return O;
     }
@@ -398,15 +398,16 @@ inline void runLiteral(Ctx& C, ParseStats& S, const std::string& text, unsigned 
     return;
   }
   bool nt = literalIsNontrivial(L);
-  for (int via = 0; via < 3; via++) {
+  for (int via = 0; via < 4; via++) {
     if (!(viaMask & (1u << via))) continue;
-    if (via != STR && text.size() > 63) continue;       // statement: up to 63 characters in a document
+    if (via <= TOP && text.size() > 63) continue;       // statement: up to 63 characters in a document
     if (via == STR && text.size() > 65535) continue;    // longest string a document can hold (C19)
     for (int ty = 0; ty < 5; ty++) {
       if (!(tyMask & (1u << ty))) continue;
       if (ty == T_INT64 && !(L.isInt && L.intInRange && (L.neg ? true : L.mag < (u128(1) << 63)))) continue;
       if (ty == T_UINT64 && !(L.isInt && L.intInRange && (!L.neg || L.mag == 0))) continue;
       if (ty == T_TEXT && !(via == DOC && L.isInt && L.intInRange)) continue;
+      if (via == LNK && ty == T_TEXT) continue;
       if (!C.takeByHash(litNo)) continue;
       C.begin("parse:lit=" + keyLit(text) + "|via=" + kViaName[via] + "|T=" + kTyName[ty]);
       evaluate(C, L);
@@ -469,7 +470,7 @@ inline void runLiteral(Ctx& C, ParseStats& S, const std::string& text, unsigned 
   }
 }
 
-static const unsigned VIA_ALL = 7, VIA_DOC_STR = 5, VIA_STR = 4;
+static const unsigned VIA_ALL = 15, VIA_DOC_STR = 13, VIA_STR = 12;  // the string routes: copied (owned) and linked
 static const unsigned TY_ALL = 31, TY_FLOATING = 3;
 
 // ------------------------------------------------------------------------------------------
@@ -654,11 +655,41 @@ inline void parseFamilyC(Ctx& C, ParseStats& S) {
           "double/float/int64/uint64");
 }
 
+// (d) the text of the exponent: every marker spelling, magnitudes across every width the parser's accumulator can meet
+//     (3 to 40 digits), leading zeros of the exponent (3 to 65000), zero and non-zero mantissas
+inline void parseFamilyD(Ctx& C, ParseStats& S) {
+  const char* mants[] = {"0", "0.0", "1", "9.9", "12345678", "0.000001", "1000000000000000000000000000000", "2.5", "12345678.9"};
+  const char* signs[] = {"", "+", "-"};
+  std::vector<std::string> mags = {"341", "342", "345", "400", "511", "512", "513", "1023", "1024", "4931", "4932", "32767", "32768", "65535", "65536",
+                                   "2147483647", "2147483648", "2147483649", "4294967295", "4294967296", "4294967297", "9223372036854775808",
+                                   "18446744073709551617", std::string(10, '9'), std::string(19, '9'), std::string(20, '9'), std::string(40, '9')};
+  for (int k = 5; k <= 20; k++) {
+    std::string p = "1" + std::string(size_t(k), '0');
+    mags.push_back(p);
+    mags.push_back(std::string(size_t(k), '9'));
+    mags.push_back(p.substr(0, p.size() - 1) + "1");
+  }
+  for (const char* m : mants)
+    for (const char* marker : {"e", "E"})
+      for (const char* sg : signs)
+        for (auto& mag : mags)
+          for (int neg = 0; neg < 2; neg++) runLiteral(C, S, std::string(neg ? "-" : "") + m + marker + sg + mag, VIA_ALL, TY_FLOATING, 0);
+  // leading zeros of the exponent
+  const char* vals[] = {"0", "1", "5", "12", "38", "39", "300", "308", "340"};
+  for (size_t z : std::vector<size_t>{3, 4, 5, 6, 7, 8, 9, 10, 11, 12, 17, 18, 19, 20, 40, 57, 100, 255, 256, 1000, 65000})
+    for (const char* m : {"1", "-2.5", "12345678.9", "0"})
+      for (const char* sg : signs)
+        for (const char* v : vals) runLiteral(C, S, std::string(m) + "e" + sg + std::string(z, '0') + v, VIA_ALL, TY_FLOATING, 0);
+  C.bound("parse(d): 9 mantissas x {e,E} x {none,+,-} x 75 exponent magnitudes of 3..40 digits (around 2^31, 2^32, 2^63, 2^64, 10^k), both signs; "
+          "4 mantissas x 3 signs x 9 exponent values written with 3..65000 leading zeros; document, top-level, owned-string and linked-string routes");
+}
+
 inline void runParse(Ctx& C) {
-  std::string fam = C.opt("families", "abc");
+  std::string fam = C.opt("families", "abcd");
   ParseStats S;
   if (fam.find('a') != std::string::npos) parseFamilyA(C, S);
   if (fam.find('c') != std::string::npos) parseFamilyC(C, S);
+  if (fam.find('d') != std::string::npos) parseFamilyD(C, S);
   if (fam.find('b') != std::string::npos) parseFamilyB(C, S);
   C.metrics["parse_literals_generated"] = C.shard == 0 ? double(S.literals) : 0;
   C.metrics["parse_nontrivial_cases"] = double(S.nontrivialCases);
